@@ -312,6 +312,11 @@ def main(argv=None):
         raise SystemExit(2)
 
     signal.signal(signal.SIGTERM, _term)
+    for stream in (sys.stdout, sys.stderr):
+        try:  # file names in reports may contain bytes that are not UTF-8
+            stream.reconfigure(errors="backslashreplace")
+        except Exception:  # noqa: BLE001
+            pass
     code = 2
     try:
         if a.prop == "selftest-digest":
